@@ -114,7 +114,7 @@ class C11(object):
 
     def gen_combine(self, rng):
         a = self.scalar_case(rng)
-        b = self.scalar_case(rng, base=rng.choice([a['base'], 'linear']))
+        b = self.scalar_case(rng, base=rng.choice([a['base'], 'linear'] + list(gen.BASES)))   # any pair of bases
         form = rng.choice(['dd', 'dd', 'dn', 'nd'])
         return {'kind': 'combine', 'a': a, 'b': b, 'op': rng.choice(sorted(OPS)), 'form': form,
                 'num': rng.choice([-2, 1, 2, 3])}
@@ -141,7 +141,8 @@ class C11(object):
 
     def gen_prune_expand(self, rng):
         c = gen.rand_dist_case(rng, nmin=1, nmax=3)
-        c.update({'kind': 'prune_expand', 'union': rng.random() < 0.5, 'sparse': rng.random() < 0.5, 'trim': False})
+        c.update({'kind': 'prune_expand', 'union': rng.random() < 0.5, 'sparse': rng.random() < 0.5, 'trim': False,
+                  'keep_seed': rng.randrange(2 ** 31) if rng.random() < 0.6 else None})
         return c
 
     def gen_example(self, rng):
@@ -525,16 +526,24 @@ class C11(object):
         klass = case['klass']
         d = gen.build(case)
         base = case['base']
-        pd = pruned_samplespace(d)
-        ed = expanded_samplespace(d, union=case['union'])
         src = gen.obs_py(d, klass)
         positive = [o for o, v in zip(src['space'], src['lookups']) if gen.lin_of(v, base) != 0]
+        # outcomes to keep although they have probability zero (and, harmlessly, some that have not)
+        keep = []
+        if case.get('keep_seed') is not None:
+            import random as _r
+            kr = _r.Random(case['keep_seed'])
+            keep = [o for o in src['space'] if kr.random() < 0.4]
+        r.features.append('keep=%d' % len(keep))
+        pd = pruned_samplespace(d, [gen.to_py(o, klass) for o in keep]) if keep else pruned_samplespace(d)
+        ed = expanded_samplespace(d, union=case['union'])
+        positive = [o for o in src['space'] if o in positive or o in keep]
         op_, oe = gen.obs_py(pd, klass), gen.obs_py(ed, klass)
         r.nontrivial = len(positive) < len(src['space'])
         look = lambda ob: {tuple(o): gen.lin_of(v, base) for o, v in zip(ob['space'], ob['lookups'])}
         if sorted(map(tuple, op_['space'])) != sorted(map(tuple, positive)):
-            r.oracle_fail = 'pruned sample space %s is not the support %s' % (op_['space'], positive)
-        elif any(abs(look(op_)[tuple(o)] - look(src)[tuple(o)]) > 1e-12 for o in positive):
+            r.oracle_fail = 'pruned sample space %s is not the support plus the outcomes to keep %s' % (op_['space'], positive)
+        elif any(abs(look(op_)[tuple(o)] - look(src)[tuple(o)]) > 1e-12 for o in positive):   # kept nulls read as 0
             r.oracle_fail = 'pruning changed a probability'
         else:
             n = case['n']
@@ -552,7 +561,7 @@ class C11(object):
         # correspondence with Core/PruneExpand.lean (the rebuilt distribution's whole observable record)
         if base == 'linear' and not r.oracle_fail:
             dj = gen.dist_json(d, klass)
-            for name, args, ob in (('prune', [dj, []], op_), ('expand', [dj, bool(case['union'])], oe)):
+            for name, args, ob in (('prune', [dj, keep], op_), ('expand', [dj, bool(case['union'])], oe)):
                 mo = drv.call(name, args)
                 if mo[0] != 'ok':
                     r.mismatch = '%s: the model rejects the rebuilt distribution (%s)' % (name, mo[1])
